@@ -310,7 +310,7 @@ func run(c *lib.Ctx) error {
 		maxLen int
 		wide   bool
 	}
-	confs := []conf{{2, false}, {1, true}}
+	confs := []conf{{2, false}, {2, true}}
 	if c.Thorough() {
 		confs = []conf{{3, false}, {2, true}}
 	}
